@@ -4,6 +4,7 @@
 cd "$(dirname "$0")/.."
 tier=$1; shift
 props=$(python3 -c "import json;print(' '.join(c['property_id'] for c in json.load(open('MANIFEST.json'))['checks']))")
+export VERIF_ROOT="$PWD"
 ./check build || exit 2
 rc=0
 for seed in "$@"; do
